@@ -97,11 +97,13 @@ def main(argv):
             reports[futs[f]] = f.result()
     second = {}
     if tier == 'thorough':
-        # second run with a doubled resource limit: exposes unstable queries (reported, not decisive)
-        with concurrent.futures.ThreadPoolExecutor(max_workers=min(8, len(units))) as ex:
-            futs = {ex.submit(engine.verify_unit, u, sources, (rl or 10) * 2): u for u in units}
-            for f in concurrent.futures.as_completed(futs):
-                second[futs[f]] = f.result()
+        # further runs with other solver seeds: expose unstable queries (reported in the evidence, not decisive)
+        for sd in (seed + 1, seed + 2):
+            with concurrent.futures.ThreadPoolExecutor(max_workers=min(8, len(units))) as ex:
+                futs = {ex.submit(engine.verify_unit, u, sources, rl, None,
+                                  ['--smt-option', 'smt.random_seed=%d' % sd, '--smt-option', 'sat.random_seed=%d' % sd]): u for u in units}
+                for f in concurrent.futures.as_completed(futs):
+                    second['%s@seed%d' % (futs[f], sd)] = f.result()
 
     known = [k for k in load_known() if k.get('status') == 'known' and k.get('property') == a.prop]
     undecided = []
@@ -171,13 +173,14 @@ def main(argv):
     for u in units:
         for iso in getattr(reports[u], 'isolated', []):
             unstable.append('%s: failed in the whole-unit run, re-verified alone: %s' % (iso['function'], 'discharged' if iso['verified_in_isolation'] else 'fails'))
-    for u, rep2 in second.items():
+    for key, rep2 in second.items():
         if rep2.error:
             continue
+        u = key.split('@')[0]
         ids1 = {f.id for f in reports[u].failures}
         ids2 = {f.id for f in rep2.failures}
         for i in ids1 ^ ids2:
-            unstable.append('%s (differs between rlimit x1 and x2)' % i)
+            unstable.append('%s (verdict differs in run %s)' % (i, key))
 
     # ---------------- witness probes (thorough: all registered; on violation: those registered for the property)
     probe_results = []
